@@ -95,6 +95,15 @@ Theorem C06_text_spelling_nonvacuous :
 Proof. exact text_spelling_example. Qed.
 Print Assumptions C06_text_spelling_nonvacuous.
 
+(* A predicate after a predicate, the statement's own example shape 'orders[id=2]/items[k1=B]/f': the nested list of
+   per-parent selections (since the "fix:" commit 2fc3539; before it this very input was the witness of the recorded
+   finding C06/chained-selection - the model, like the code, answered with a miss).  An example, not a theorem about
+   all inputs: chained selections are carried by the correspondence and the oracle. *)
+Theorem C06_chained_example :
+  dict_get_pub (fuel_for ch_orders ch_xp) ch_orders ch_xp = Ok (ch_orders, LVal (Lst true [Lst true [Leaf (SStr [51%N])]])).
+Proof. exact chained_example. Qed.
+Print Assumptions C06_chained_example.
+
 (* A record list that is empty: a predicate step on it is a miss for that list and nothing else (since the
    "fix:" commit 20793f6; before it the step raised IndexError there, which left an enclosing fan-out loop and
    lost the selections of the sibling parents: orders/items[k=v]/f with one order's items == []). *)
